@@ -99,10 +99,26 @@ Section Statements.
       occ_get s o = Some y <->
       In y (sessions_of evs) /\ s_station y = s /\ s_arrival y <= t < s_departure y.
 
-  (* the simulation ends one period after the last event *)
+  (* the simulation ends one period after the last event: after the largest timestamp in
+     event_history, which is the largest arrival / departure / recompute time of the input *)
   Definition C01_final_iter_stmt :=
     valid stations evs -> forall st, the_run = Done st ->
-    iter st = 1 + fold_right Z.max (-1) (map (fun p => ev_ts (snd p)) (hist st)).
+    iter st = 1 + fold_right Z.max (-1) (map (fun p => ev_ts (snd p)) (hist st)) /\
+    (evs <> [] -> iter st = max_ts evs + 1).
+
+  (* nothing is lost and nothing is invented: every given event is in event_history, processed in the
+     period of its timestamp; so is the unplug of every given session; and every entry is one of these *)
+  Definition C01_all_processed_stmt :=
+    valid stations evs -> forall st, the_run = Done st ->
+    (forall e, In e evs -> In (ev_ts e, e) (hist st)) /\
+    (forall x, In x (sessions_of evs) -> In (s_departure x, EUnplug (s_departure x) x) (hist st)) /\
+    (forall u e, In (u, e) (hist st) ->
+       u = ev_ts e /\
+       match e with
+       | EPlugin ts x => In (EPlugin ts x) evs
+       | EUnplug ts x => In x (sessions_of evs) /\ ts = s_departure x
+       | ERecompute ts => In (ERecompute ts) evs
+       end).
 End Statements.
 
 Theorem C01_terminates : forall N V Sch stations maxrec num_view num_apply num_charge num_store sched evs n0,
@@ -144,6 +160,16 @@ Theorem C01_final_iter : forall N V Sch stations maxrec num_view num_apply num_c
 Proof. unfold C01_final_iter_stmt. intros until n0. intros VAL st R. exact (c01_final_iter _ _ _ _ _ _ _ _ _ _ _ VAL _ _ R). Qed.
 Print Assumptions C01_final_iter.
 
+Theorem C01_all_processed : forall N V Sch stations maxrec num_view num_apply num_charge num_store sched evs n0,
+  C01_all_processed_stmt N V Sch stations maxrec num_view num_apply num_charge num_store sched evs n0.
+Proof.
+  unfold C01_all_processed_stmt. intros until n0. intros VAL st R.
+  destruct (c01_all_processed _ _ _ _ _ _ _ _ _ _ _ VAL _ _ R) as (A & B & C).
+  split; [exact A|]. split; [exact B|]. intros u e I. destruct (C u e I) as (G & E). split; [exact E|].
+  destruct e; exact G.
+Qed.
+Print Assumptions C01_all_processed.
+
 (* ---- non-vacuity: 3 stations, back-to-back reuse of station 1, four simultaneous events at t = 4
         (two departures, two arrivals) plus a recompute at the same time ---- *)
 Definition ex_s (i st a d : Z) : session := mkSession i st a d d 1 10 0 7.
@@ -161,6 +187,7 @@ Proof.
     repeat (destruct Hx as [<-|Hx]; [|]); try contradiction;
     repeat (destruct Hy as [<-|Hy]; [|]); try contradiction; simpl; intros; try lia; try congruence.
 Qed.
+Print Assumptions C01_example_valid.
 
 (* the run of the example with a trivial numeric layer and max_recompute = 2 *)
 Example C01_example_run :
@@ -175,3 +202,4 @@ Example C01_example_run :
   | _ => False
   end.
 Proof. vm_compute. repeat split; reflexivity. Qed.
+Print Assumptions C01_example_run.
